@@ -715,8 +715,20 @@ def _xr_reproject_ds(
     # Dataset.map may copy the attributes of the source variables and coordinates onto the
     # result (depends on the xarray version), that would bring back the source CRS
     attrs = {k: v for k, v in src.attrs.items() if k not in SPATIAL_ATTRIBUTES}
+
+    # a variable that has one of the two spatial dimensions only (a row or column profile)
+    # can be neither reprojected nor kept: its labels are those of the source grid
+    sdims = set(src.odc.spatial_dims or ())
+
+    def _on_src_grid_only(dv: xarray.DataArray) -> bool:
+        return dv.odc.geobox is None and len(sdims.intersection(dv.dims)) > 0
+
     return xarray.Dataset(
-        {name: _maybe_reproject(dv) for name, dv in src.data_vars.items()},
+        {
+            name: _maybe_reproject(dv)
+            for name, dv in src.data_vars.items()
+            if not _on_src_grid_only(dv)
+        },
         attrs=attrs,
     )
 
